@@ -18,7 +18,7 @@ func init() {
 			"(flaky) expectError is true exactly for knownFailing, or knownFlaky together with an actual failure, and only when the outcome is not a setup error (checked on the phi leaves of the expression with their path facts); " +
 			"(setup) every infrastructure path records its outcome with setupError=true and every RPC-result path with false; peer feedback never overwrites an existing outcome's flags and always leaves a failure; " +
 			"(outcome-always) the completion callback records exactly one outcome on every path and records reference-client feedback for every message; " +
-			"(feedback) report merges peer feedback before classifying; (total) the expected total is the count of permutations accepted by the filter; " +
+			"(feedback) report merges peer feedback before classifying, and a reference server's stderr line is attributed exactly when it splits at the first \": \" into a test name of the batch and a message; (total) the expected total is the count of permutations accepted by the filter; " +
 			"(locked) outcomes, serverSideband and traces only under the results mutex. " +
 			"It does NOT decide the executed truth table or process fates.",
 		NotDecided: []string{"the full outcome × marking × feedback truth table as executed", "process fates (which peer dies when)", "that printed totals are arithmetically correct"},
@@ -39,6 +39,8 @@ func init() {
 			Old:    "\t\t\tr.outcomes[name] = outcome\n\t\t} else {\n\t\t\tr.setOutcomeLocked(name, false, errors.New(msg))\n\t\t}",
 			New:    "\t\t\tr.setOutcomeLocked(name, false, outcome.actualFailure)\n\t\t} else {\n\t\t\tr.setOutcomeLocked(name, false, errors.New(msg))\n\t\t}",
 			Expect: []string{"setup.feedback-keeps-flags"}, Note: "seed C04-1: feedback resets setupError of an existing outcome"},
+		Mutant{ID: "C04-split-all", Prop: "C04", File: fs, Old: "parts := strings.SplitN(str, \": \", 2)", New: "parts := strings.Split(str, \": \")",
+			Expect: []string{"sideband.split"}, Note: "seed C04-2: feedback containing \": \" not recognised, case passes"},
 		Mutant{ID: "C04-callback-err-not-setup", Prop: "C04", File: fs, Old: "\t\t\tcase err != nil:\n\t\t\t\tresults.setOutcome(name, true, err)", New: "\t\t\tcase err != nil:\n\t\t\t\tresults.setOutcome(name, false, err)",
 			Expect: []string{"setup.flag"}, Note: "a missing client answer is recorded as an RPC failure (so known-failing would accept it)"},
 		Mutant{ID: "C04-no-outcome-default", Prop: "C04", File: fs, Old: "\t\t\tdefault:\n\t\t\t\tresults.setOutcome(name, false, errors.New(\"client returned a response with neither an error nor result\"))\n", New: "\t\t\tdefault:\n",
@@ -439,6 +441,10 @@ func runC04(p *Prog, r *Report) {
 		})
 		r.Check(okG && nUpd == 1, "setup.feedback-keeps-flags", "R-GUARD", p.Pos(ps.Pos()), "feedback on an existing outcome only replaces actualFailure (non-nil) and writes it back; a new outcome is created only when none exists",
 			"merging peer feedback rewrites an existing outcome through setOutcomeLocked or touches its setupError/known flags (a could-not-run case marked known-failing would then count as the expected failure), or can leave it without a failure")
+	}
+	// reference-server feedback is attributed to the named case (shared with C11)
+	if rts != nil {
+		sidebandRules(p, r, rts)
 	}
 	// ---- feedback merged before classification ----
 	psObj := p.TypeFunc(pkgCC, "testResults", "processSidebandInfoLocked")
